@@ -232,31 +232,42 @@ def execute(prop, tier, seed, P, replay=None, clear=True):
         T = P[tier]
         if clear:
             clear_replays(prop)
-        # 1. design-level exhaustive check
-        mcs = []
-        for m in T["mc"]:
-            st = mc_run(consts(peers=m.get("peers", ("p1", "p2")), acts=m["acts"], rich=m.get("rich", ()), maxval=m.get("maxval", 1),
-                               tiny=m.get("tiny", ()), maxreq=m.get("maxreq", 2)),
-                        m["maxlen"], m.get("prefix", "PrefixNone"), timeout=T.get("mc_timeout", 900))
-            mcs.append(st)
-            log("[%s] spec check: %d distinct states, %d transitions" % (prop, st["distinct"], st["generated"]))
-        # 2. behaviours from TLC
-        behs, topo, gen_trans = [], None, 0
-        for g in T["gen"]:
-            c = consts(peers=g.get("peers", ("p1", "p2")), acts=g["acts"], rich=g.get("rich", ()), maxval=g.get("maxval", 1), ghost=g.get("ghost", 0), tiny=g.get("tiny", ()), maxreq=g.get("maxreq", 2))
-            topo, b, st = gen_bfs(c, g["maxlen"], g.get("prefix", "PrefixNone"), timeout=T.get("gen_timeout", 900), view=g.get("view", "View"))
-            log("[%s] generator %s maxlen %d view %s: %d behaviours" % (prop, g["acts"], g["maxlen"], g.get("view", "View"), len(b)))
-            gen_trans += len(b)
-            behs += b
-        nbfs = len(behs)
-        for g in T.get("sim", []):
+        # 1. design-level exhaustive check, 2. behaviours from TLC (all TLC runs side by side)
+        def job(j):
+            kind, g = j
+            if kind == "mc":
+                st = mc_run(consts(peers=g.get("peers", ("p1", "p2")), acts=g["acts"], rich=g.get("rich", ()), maxval=g.get("maxval", 1),
+                                   tiny=g.get("tiny", ()), maxreq=g.get("maxreq", 2)),
+                            g["maxlen"], g.get("prefix", "PrefixNone"), timeout=T.get("mc_timeout", 900), workers=4)
+                log("[%s] spec check: %d distinct states, %d transitions" % (prop, st["distinct"], st["generated"]))
+                return st
+            if kind == "gen":
+                c = consts(peers=g.get("peers", ("p1", "p2")), acts=g["acts"], rich=g.get("rich", ()), maxval=g.get("maxval", 1), ghost=g.get("ghost", 0), tiny=g.get("tiny", ()), maxreq=g.get("maxreq", 2))
+                tp, b, st = gen_bfs(c, g["maxlen"], g.get("prefix", "PrefixNone"), timeout=T.get("gen_timeout", 900), view=g.get("view", "View"))
+                log("[%s] generator %s maxlen %d view %s: %d behaviours" % (prop, g["acts"], g["maxlen"], g.get("view", "View"), len(b)))
+                return tp, b
             c = consts(peers=g.get("peers", ("p1", "p2")), acts=g["acts"], rich=g.get("rich", ()), maxval=g.get("maxval", 2), tiny=g.get("tiny", ()),
                        maxreq=g.get("maxreq", 3))
-            behs += gen_sim(c, g["maxlen"], g.get("prefix", "PrefixNone"), g["num"], seed + 1, timeout=T.get("gen_timeout", 900))
+            return None, gen_sim(c, g["maxlen"], g.get("prefix", "PrefixNone"), g["num"], seed + 1, timeout=T.get("gen_timeout", 900))
+        jobs = [("mc", m) for m in T["mc"]] + [("gen", g) for g in T["gen"]] + [("sim", g) for g in T.get("sim", [])]
+        res = pmap(job, jobs, workers=8)
+        mcs = [r for (k, _), r in zip(jobs, res) if k == "mc"]
+        groups = [r[1] for (k, _), r in zip(jobs, res) if k != "mc"]
+        topo = next(r[0] for (k, _), r in zip(jobs, res) if k == "gen")
+        gen_trans = nbfs = sum(len(r[1]) for (k, _), r in zip(jobs, res) if k == "gen")
+        # cap: stratified - small generators are kept whole, the budget left is shared by the large ones
         cap = T.get("cap")
-        if cap and len(behs) > cap:
+        if cap and sum(len(g) for g in groups) > cap:
             rnd = random.Random(seed)
-            behs = rnd.sample(behs, cap)
+            left, out = cap, []
+            order = sorted(range(len(groups)), key=lambda i: len(groups[i]))
+            for n, i in enumerate(order):
+                share = left // (len(order) - n)
+                g = groups[i] if len(groups[i]) <= share else rnd.sample(groups[i], share)
+                left -= len(g)
+                out.append((i, g))
+            groups = [g for _, g in sorted(out)]
+        behs = [b for g in groups for b in g]
         log("[%s] %d behaviours (%d from BFS transition cover)" % (prop, len(behs), nbfs))
         st_res = selftest(sc, topo, behs, c_trace, checked)
         log("[%s] binding self-test done" % prop)
